@@ -22,15 +22,18 @@ ASSUMPTIONS = ["forward-proxy GET requests over http to a loopback origin, memor
 MANIFEST = {
     "engine": "e2e",
     "text": "partial: theorems explicit_lifetime_passed_contacts_origin_partial (s-maxage / max-age / Expires relative to a Date at most 24 h old, "
-            "any Age, any later request time, any request without max-stale, any rule without override options), "
+            "any Age, any later request time, any request without max-stale, any rule without override-expire), "
+            "lifetime_passed_after_revalidations_partial (the same along any history of 304 updates, by induction with a timestamps invariant), "
             "date_older_than_24h_counterexample, maxage0_or_nocache_contacts_origin_partial (+ immutable_counterexample), "
-            "mustrevalidate_stale_contacts_origin (any configuration, any request incl. max-stale), max_stale_bounds_staleness, "
-            "served_implies_unexpired, shift_invariant hold for the decision model (hdrExpirationTime, timestampsSet, the REVALIDATE flags, "
-            "refreshStaleness, refreshCheck, refreshIsCachable, clientInterpretRequestHeaders, identifyStoreObject/cacheHit/processExpired); "
-            "the model is tied to the rebuilt binary by scenario correspondence (hit / conditional revalidation / unconditional miss / 504, the "
-            "Age header on hits = now - timestamp, the If-Modified-Since sent upstream = lastModified()) and a direct oracle on what the origin saw",
+            "mustrevalidate_stale_contacts_origin (any configuration, any request incl. max-stale), mustrevalidate_of_first_reply_after_revalidations "
+            "(+ mustrevalidate_from_304_counterexample), max_stale_bounds_staleness, served_implies_unexpired, shift_invariant hold for the decision model "
+            "(hdrExpirationTime, timestampsSet, the REVALIDATE flags, refreshStaleness, refreshCheck, refreshIsCachable, clientInterpretRequestHeaders, "
+            "identifyStoreObject/cacheHit/processExpired, updateOnNotModified); the model is tied to the rebuilt binary by scenario correspondence over "
+            "two and three exchanges (hit / conditional revalidation / unconditional miss / 504, the Age header on hits = now - timestamp, the "
+            "If-Modified-Since sent upstream = lastModified()) and a direct oracle on what the origin saw; the model cannot exhibit socket I/O, "
+            "concurrency between requests, or what happens when a revalidation fails",
     "note": "trusted: Lean kernel, python rig (origin/client stubs), loopback TCP, wall clock; not modelled: socket I/O, header parsing, store "
-            "internals, Vary, collapsed forwarding, the 304 merge (updateOnNotModified) beyond one revalidation",
+            "internals, Vary, collapsed forwarding, client conditionals, failed revalidations (5xx / aborted), negative caching (modelled, not exercised)",
     "technique": "Lean 4 proof about the decision model + defaults translator (cf.data.pre) + end-to-end scenario correspondence with the rebuilt squid",
 }
 
@@ -447,12 +450,11 @@ def failures(l, impl):
         at = sc.dt
         if obs.get("B") == "reval":
             st = stored_after_304(sc, at)
-        elif obs.get("B") == "miss":
-            st = None       # nothing of the first response can be left
-        if st is not None:
-            why = judge(sc.cfg, st, sc.step2, at + sc.step2.dt, "third request")
-            if why:
-                out.append(("C", why))
+        # (after an unconditional fetch the origin's answer was `no-store`: if anything is served from the cache now, it can
+        #  only be the first response, judged by its own headers)
+        why = judge(sc.cfg, st, sc.step2, at + sc.step2.dt, "third request")
+        if why:
+            out.append(("C", why))
     return out
 
 
@@ -473,7 +475,7 @@ def classify(l, impl, why):
     obs = parts(impl)
     for step, w in fs:
         fid = None
-        if step == "B" or (step == "C" and obs.get("B") in ("hit", "oic504")):
+        if step == "B" or (step == "C" and obs.get("B") != "reval"):
             rq = sc.step1 if step == "B" else sc.step2
             if "max-age=0 answered from the cache" in w and "i" in sc.rf and "n" not in rq.qf and "n" not in sc.rf:
                 fid = "C12-immutable-ignores-request-max-age"
